@@ -895,6 +895,48 @@ Proof.
   - intros Hnc c Hp. destruct HG as [Hcomp|(HI & HN)]; [tauto|apply Hclosed; auto].
 Qed.
 
+(* along any run: states are Good, sound, and knowledge only grows *)
+Lemma fold_good fuel (Rc : nat -> Prop) : forall h (sA s1 : st),
+  (forall ev, In ev h -> fst ev < N0 /\ Rc (fst ev)) ->
+  fold_left (fun os ev => match os with Some s => decode sxor s0 fuel s (fst ev) (snd ev) | None => None end) h (Some sA) = Some s1 ->
+  Good sA -> Sound Rc sA -> Good s1 /\ Sound Rc s1 /\ Kmono sA s1.
+Proof.
+  induction h as [|ev h IH]; intros sA s1 Hh Hf HG HS; simpl in Hf.
+  - inversion Hf; subst. split; auto. split; auto. intros c; auto.
+  - destruct (decode sxor s0 fuel sA (fst ev) (snd ev)) as [sB|] eqn:Ed.
+    + destruct (Hh ev (or_introl eq_refl)) as (Hr & HRc).
+      destruct (decode_good fuel sA sB (fst ev) (snd ev) Rc HG HS HRc Hr Ed) as (GB & SB & MB & KB).
+      destruct (IH sB s1 (fun e He => Hh e (or_intror He)) Hf GB SB) as (G1 & S1 & M1).
+      split; auto. split; auto. intros c Hc. apply M1. apply MB. auto.
+    + exfalso. clear -Hf. induction h as [|x h IHh]; simpl in Hf; [discriminate|auto].
+Qed.
+
+Theorem run_complete_flag fuel (hist : list (nat * Sy)) (s : st) :
+  (forall ev, In ev hist -> fst ev < N0) -> run fuel hist = Some s ->
+  (fst (is_complete s) = true <-> forall c, R0 <= c < N0 -> known s c = true).
+Proof.
+  intros Hr Hrun. destruct init_good as (G0 & K0).
+  assert (HS0 : Sound (fun e => In e (map fst hist)) (init Sy R0 N0 H0)) by (intros c Hc; rewrite K0 in Hc; discriminate).
+  destruct (fold_good fuel (fun e => In e (map fst hist)) hist (init Sy R0 N0 H0) s) as ((W & _) & _ & _); auto.
+  { intros ev Hev. split; auto. apply in_map. auto. }
+  pose proof (is_complete_spec s W) as Hs. destruct (is_complete s) as [b sx]. simpl.
+  destruct Hs as (_ & _ & _ & _ & _ & _ & Hb). exact Hb.
+Qed.
+
+Theorem run_monotone fuel (h1 h2 : list (nat * Sy)) (s1 s2 : st) :
+  (forall ev, In ev (h1 ++ h2) -> fst ev < N0) -> run fuel h1 = Some s1 -> run fuel (h1 ++ h2) = Some s2 ->
+  forall c, known s1 c = true -> known s2 c = true.
+Proof.
+  intros Hr H1 H2. unfold run in *. rewrite fold_left_app, H1 in H2.
+  destruct init_good as (G0 & K0).
+  set (Rc := fun e => In e (map fst (h1 ++ h2))).
+  assert (HS0 : Sound Rc (init Sy R0 N0 H0)) by (intros c Hc; rewrite K0 in Hc; discriminate).
+  destruct (fold_good fuel Rc h1 (init Sy R0 N0 H0) s1) as (G1 & S1 & _); auto.
+  { intros ev Hev. split; [apply Hr; apply in_or_app; auto|]. unfold Rc. apply in_map. apply in_or_app. auto. }
+  destruct (fold_good fuel Rc h2 s1 s2) as (_ & _ & M); auto.
+  intros ev Hev. split; [apply Hr; apply in_or_app; auto|]. unfold Rc. apply in_map. apply in_or_app. auto.
+Qed.
+
 Theorem run_total fuel (hist : list (nat * Sy)) :
   N0 < fuel -> (forall ev, In ev hist -> fst ev < N0) -> exists s, run fuel hist = Some s.
 Proof.
